@@ -14,6 +14,8 @@ import (
 func init() {
 	verifHarnesses["HarnessC05Writers"] = HarnessC05Writers
 	verifHarnesses["HarnessC05Parallel"] = HarnessC05Parallel
+	verifHarnesses["HarnessC05FlushDuringAdd"] = HarnessC05FlushDuringAdd
+	verifHarnesses["HarnessC05CommitFault"] = HarnessC05CommitFault
 }
 
 type verifRow struct {
@@ -311,5 +313,125 @@ func HarnessC05Parallel() {
 			idx.Close()
 		}
 	}
+	verifReach("end")
+}
+
+// HarnessC05FlushDuringAdd: one in-memory writer; a goroutine adds a row (with a value and a
+// column the writer has not seen) while another one writes the index out. Whatever the
+// interleaving, the file is the index of the first n rows for some n (here 1 or 2): schema,
+// row counter and bitmaps describe the same rows. Race analysis over both calls.
+func HarnessC05FlushDuringAdd() {
+	out := verifTempPath("c05f.updog")
+	w := NewIndexWriter(out)
+	if _, err := w.AddRow(map[string]string{"t": "r0", "a": "x"}); err != nil {
+		panic(err)
+	}
+	toDB := verifBool("into-caller-supplied-db")
+	var db *bbolt.DB
+	if toDB {
+		var err error
+		db, err = bbolt.Open(out, 0644, nil)
+		if err != nil {
+			panic(err)
+		}
+	}
+	var wg sync.WaitGroup
+	var addErr, flushErr error
+	verifPreemptions(2 + verifTier())
+	verifSchedule(true)
+	verifLockset(true)
+	wg.Add(2)
+	go func() {
+		defer wg.Done()
+		_, addErr = w.AddRow(map[string]string{"t": "r1", "a": "y", "b": "z"})
+	}()
+	go func() {
+		defer wg.Done()
+		if toDB {
+			flushErr = w.WriteToBoltDatabase(db)
+		} else {
+			flushErr = w.Flush()
+		}
+	}()
+	wg.Wait()
+	verifLockset(false)
+	verifSchedule(false)
+	verifRaceFree("C05: AddRow and a concurrent write of the index access writer state without a common lock")
+	if db != nil {
+		db.Close()
+	}
+	verifAssert(addErr == nil && flushErr == nil, "C05: AddRow or the write of the index failed when running at the same time")
+	idx, err := OpenIndex(out)
+	verifAssert(err == nil, "C05: an index written while a row was being added cannot be opened")
+	if err != nil {
+		return
+	}
+	count := func(e Expression) uint64 {
+		res, err := idx.Execute(&Query{Expr: e})
+		if err != nil {
+			return 0
+		}
+		return res.Count
+	}
+	n := count(&ExprNot{Expr: &ExprEqual{Column: "t", Value: "nope"}})
+	verifAssert(n == 1 || n == 2, "C05: an index written while a row was being added holds neither the rows before nor the rows after that AddRow")
+	sch := idx.GetSchema()
+	names := ""
+	for _, c := range sch.Columns {
+		names += c.Name + "{"
+		for _, v := range c.Values {
+			names += v.Value + ","
+		}
+		names += "}"
+	}
+	if n == 1 {
+		verifAssert(names == "a{x,}t{r0,}" && count(&ExprEqual{Column: "t", Value: "r1"}) == 0, "C05: an index written while a row was being added has one row but not the schema and bitmaps of that row alone")
+	} else if n == 2 {
+		ok := names == "a{x,y,}b{z,}t{r0,r1,}" && count(&ExprEqual{Column: "t", Value: "r1"}) == 1 && count(&ExprEqual{Column: "b", Value: "z"}) == 1 &&
+			count(&ExprAnd{Exprs: []Expression{&ExprEqual{Column: "a", Value: "y"}, &ExprEqual{Column: "t", Value: "r1"}}}) == 1
+		verifAssert(ok, "C05: an index written while a row was being added counts two rows but its schema or bitmaps do not describe both")
+	}
+	idx.Close()
+	verifReach("end")
+}
+
+// HarnessC05CommitFault: the big writer's temporary database suffers a write fault exactly
+// when the writer commits its 1000-row batch (the commit fails and is rolled back). Rows
+// whose AddRow returned without error are acknowledged: if Flush then reports success, every
+// acknowledged row is in the index, exactly once, under its id; otherwise Flush must fail.
+func HarnessC05CommitFault() {
+	out := verifTempPath("c05cf.updog")
+	tmp := verifTempPath("c05cf.tmp")
+	bw, closeDBs := verifBigWriter(out, tmp)
+	var acked []int
+	for i := 0; i <= 1000; i++ {
+		if i == 1000 {
+			verifBoltWriteFault(tmp, true)
+		}
+		id, err := bw.AddRow(map[string]string{"t": verifTag4(i), "a": []string{"x", "y"}[i%2]})
+		if i == 1000 {
+			verifBoltWriteFault(tmp, false)
+		}
+		if err == nil {
+			verifAssert(id == uint32(i), "C05: AddRow must assign row ids 0,1,2,... in call order")
+			acked = append(acked, i)
+		}
+	}
+	ferr := bw.Flush()
+	closeDBs()
+	if ferr != nil {
+		verifReach("end") // the writer failed loudly: nothing wrong was produced
+		return
+	}
+	idx, err := OpenIndex(out)
+	verifAssert(err == nil, "C05: Flush reported success after a write fault but the file cannot be opened")
+	if err != nil {
+		return
+	}
+	for _, i := range []int{0, 1, 500, 998, 999} {
+		verifAssert(verifCount(idx, &ExprEqual{Column: "t", Value: verifTag4(i)}) == 1, "C05: Flush reported success although rows whose AddRow had succeeded were lost in a failed batch commit")
+	}
+	verifAssert(verifCount(idx, &ExprNot{Expr: &ExprEqual{Column: "a", Value: "nope"}}) >= uint64(len(acked)), "C05: Flush reported success with fewer rows than were acknowledged")
+	idx.Close()
 	verifReach("end")
 }
